@@ -9,7 +9,7 @@
 From Coq Require Import ZArith List Lia String.
 From LT Require Import Zbase gen_Consts SigmaPrim KeyRingModel KeyRingLemmas SigmaModel SigmaLemmas.
 From LT Require Import gen_FSInputs FsModel SigmaFsAgree SigmaFsLemmas PedersenModel PedersenLemmas.
-From LT Require Import CodecModel SamplerModel ShuffleModel CutChooseModel CutChooseLemmas.
+From LT Require Import CodecModel SamplerModel ShuffleModel CutChooseModel CutChooseLemmas SkcModel SkcLemmas.
 Import ListNotations.
 Local Open Scope Z_scope.
 
@@ -185,6 +185,40 @@ Theorem C03_cutchoose_created_secret_valid : forall G, 0 < gq G -> forall cyclic
 Proof. exact created_valid. Qed.
 Print Assumptions C03_cutchoose_created_secret_valid.
 
+(* ---- Groth's argument for a shuffle of known content, non-interactive (GrothSKC::Prove_noninteractive / Verify_noninteractive) ----
+   H = hash oracle (any function), C = commitment key (wf_pcom: 1 < p odd, 0 < q, |q| <= TMCG_MAX_FPOWM_T, h^q = g_i^q = 1),
+   l = l_e_nizk >= 0 (any challenge length), m = the public messages in [0,q), n = |m| >= 2 not above the key size, pi = any
+   permutation of the positions, r = the randomizer of the commitment c to the permuted messages, raws = any coin list of the
+   prover, alpha = any coin of the verifier.  Whenever the challenge e is invertible mod q (the code asserts this: e = 0 is a
+   2^-l event, docs/C03.md O-c), the verifier accepts -- with and without `optimizations`; the verifier's range rules
+   0 <= f_i, z, f_Delta_i, z_Delta < q (fix 25cc964) and the membership tests of c_d, c_a, c_Delta (fix e411aec) are part of
+   the model.  FULL theorem (no _partial): homomorphic commitments, the invariant F_i = e a_i + Delta_i, product argument. *)
+Theorem C03_skc_complete : forall H C l, wf_pcom C -> 0 <= l -> forall pi r m raws t mus opt alpha,
+  (2 <= List.length m)%nat -> (List.length m <= List.length (pc_g C))%nat -> Permutation.Permutation pi (seq 0 (List.length m)) ->
+  0 <= r < pc_q C -> msgs_ok (pc_q C) m -> 0 <= alpha ->
+  permuted pi m = Some mus ->
+  skc_prove H C l pi r m raws = Some t ->
+  (exists ei, (skc_e H C l m (skc_x H C l m) (k_cd t) (k_cDelta t) (k_ca t) * ei) mod pc_q C = 1) ->
+  skc_verify H C l (commitment C r mus) m true t opt alpha = Accept.
+Proof. exact skc_complete. Qed.
+Print Assumptions C03_skc_complete.
+
+(* the algebra behind it, usable on their own: Pedersen commitments are homomorphic ... *)
+Theorem C03_pedersen_homomorphic : forall C, wf_pcom C -> forall k r s la lb,
+  0 <= k -> 0 <= r -> 0 <= s -> List.length la = List.length lb -> nonneg la -> nonneg lb ->
+  (powm (commitment C r la) k (pc_p C) * commitment C s lb) mod pc_p C =
+  commitment C ((k * r + s) mod pc_q C) (map (lin k (pc_q C)) (combine la lb)).
+Proof. exact commitment_lin. Qed.
+Print Assumptions C03_pedersen_homomorphic.
+
+(* ... and the verifier's recursion over honest responses ends in e * a_n + Delta_n *)
+Theorem C03_skc_recursion : forall C e ei x, (e * ei) mod pc_q C = 1 -> forall mu d Delta n, (2 <= n)%nat -> Delta O = d O ->
+  forall ex ff fd, ex = (e * x) mod pc_q C -> (forall i, ff i = (e * mu i + d i) mod pc_q C) ->
+  (forall i, fd i = (e * lej2 C mu d Delta x n i + lej1 C d Delta n i) mod pc_q C) ->
+  F_loop C ex ei (map ff (seq 0 n)) (map fd (seq 0 (n - 1))) true 1 = (e * a_of C mu x (n - 1) + Delta (n - 1)%nat) mod pc_q C.
+Proof. exact F_loop_honest. Qed.
+Print Assumptions C03_skc_recursion.
+
 (* non-vacuity: the tiny group of KeyRingLemmas satisfies the hypotheses; 16 = 2^4 is a group element *)
 Example C03_nonvacuous_wf : wf_params dup_H 8 dup_G /\ elem dup_G 16 /\ elem dup_G 8.
 Proof. split; [exact dup_wf|]. split; vm_compute; reflexivity. Qed.
@@ -229,5 +263,17 @@ Proof.
     apply Permutation.Permutation_sym. apply (Permutation.Permutation_cons_app [2%N] [1%N] 0%N). apply Permutation.perm_swap.
   - split; vm_compute; reflexivity.
 Qed.
+(* a concrete honest shuffle-of-known-content argument (p = 23, q = 11, three messages, l = 3): challenge e = 4 is invertible
+   mod 11, the prover's message exists and both verifier variants accept *)
+Definition ex_H (l : list Z) : Z := fold_right (fun v a => v + 3 * a) 5 l.
+Definition ex_C := mkPcom 23 11 16 [2; 4; 8].
+Definition ex_t := mkSkc 3 9 18 [2; 2; 8] 2 [2; 3] 8.
+Example C03_nonvacuous_skc :
+  permuted [2%nat; 0%nat; 1%nat] [3; 7; 10] = Some [10; 3; 7] /\
+  skc_prove ex_H ex_C 3 [2%nat; 0%nat; 1%nat] 5 [3; 7; 10] [4; 9; 6; 1; 13; 20; 8] = Some ex_t /\
+  (skc_e ex_H ex_C 3 [3; 7; 10] (skc_x ex_H ex_C 3 [3; 7; 10]) 3 9 18 * 3) mod 11 = 1 /\
+  skc_verify ex_H ex_C 3 (commitment ex_C 5 [10; 3; 7]) [3; 7; 10] true ex_t false 0 = Accept /\
+  skc_verify ex_H ex_C 3 (commitment ex_C 5 [10; 3; 7]) [3; 7; 10] true ex_t true 6 = Accept.
+Proof. repeat split; vm_compute; reflexivity. Qed.
 Example C03_nonvacuous_fs : List.length fs_agreements = 16%nat /\ In ("vsshe lambda"%string, true) fs_agreements.
 Proof. split; [reflexivity|]. vm_compute. tauto. Qed.
